@@ -4,6 +4,10 @@ import json, os
 ROOT = os.path.dirname(os.path.dirname(os.path.abspath(__file__)))
 TRUST = "TLC 1.8 and the CommunityModules Json/IOUtils; the Rust harness (vh) that drives the public API of /repo's crates; rustc/cargo"
 CHECKS = {
+ "C16": ("DESIGN.md section 6 C16",
+         "Strings.tla (plain string operations over code-point sequences with a Unit parameter; relations: substring(s,0,indexof(s,t)) followed by t is a prefix of s, join(split(s,sep),sep) = s; numbers as scaled integers; integer expression trees; half-open range) model-checked over every text of a 5-class alphabet with multi-byte characters; the expected output of every command for every text / needle / index pair is replayed on the real SDK in the unit the real strlen reports; random Unicode cases are validated by TLC.",
+         "small-scope exhaustive on texts (<=3 quick, <=4 thorough), sampled beyond; floating-point calc and full Unicode case mapping out of scope",
+         "TLA+ spec + TLC exhaustive; spec->impl replay; impl->spec trace validation"),
  "C19": ("DESIGN.md section 6 C19",
          "ScriptCmd.tla: the wrapper protocol of script-implemented commands as a state machine (publish, body steps incl. nested script commands and errors at any point, cleanup) model-checked for NoTrace, plus the TLA+-defined enumeration of invocation cases (20 commands x 56 argument shapes by kind x 5 calling contexts); every case is run on the real SDK in a fresh directory comparing the variable map and the handle-table size before and after; random sessions on a persistent context are validated by TLC against the R-level postcondition.",
          "exhaustive over the case enumeration; sampled sessions; wget excluded; join_path's known hang skipped",
